@@ -163,6 +163,77 @@ def fam_random(rng, n):
     return nodes
 
 
+def fam_levels(depth, width):
+    """a pruned branch of level 3 at the bottom: every cell above has level mask 7, so its constructor computes 4 hashes"""
+    pr = format(1, '08b') + format(7, '08b') + ''.join(format(i + 1, '0256b') for i in range(3)) + ''.join(format(i, '016b') for i in range(3))
+    nodes = [(G.PRUNED, pr, ())]
+    for i in range(depth):
+        nodes.append((G.ORD, ubits(i + 1, i % 9), tuple([i] * width)))
+    return nodes
+
+
+class _ShaCount:
+    """stands in for the `hashlib` module inside pytoniq_core.boc.cell: counts sha256 objects and the bytes fed to them"""
+
+    def __init__(self):
+        import hashlib
+        self._h = hashlib
+        self.calls = 0
+        self.bytes = 0
+
+    def sha256(self, data=b''):
+        outer = self
+        outer.calls += 1
+        outer.bytes += len(data)
+        h = self._h.sha256(data)
+
+        class W:
+            def update(self, d):
+                outer.bytes += len(d)
+                h.update(d)
+
+            def digest(self):
+                return h.digest()
+
+            def hexdigest(self):
+                return h.hexdigest()
+        return W()
+
+    def __getattr__(self, k):
+        return getattr(self._h, k)
+
+
+def check_build_hashing(ctx, nodes, arg, inp, tag):
+    """c19_build_linear on the library: constructing the DAG (children first, one constructor call per distinct cell) creates
+    exactly sum(lv) sha256 objects and feeds them at most buildBytes bytes -- children's hashes are read from their cache,
+    never recomputed per path."""
+    import pytoniq_core.boc.cell as cellmod
+    cnt = _ShaCount()
+    saved = cellmod.hashlib
+    cellmod.hashlib = cnt
+    try:
+        cells = G.lib_build(nodes, 'ctor')
+    finally:
+        cellmod.hashlib = saved
+    if any(c is None for c in cells):
+        return
+    lvs = [1 if c.type_ == G.PRUNED else bin(c.level_mask.mask).count('1') + 1 for c in cells]
+    a = ctx.model.run([f"costbuild {arg} {'.'.join(map(str, lvs))}"])[0].split()
+    steps, nbytes, cbytes, n, e, hw, ok4 = (int(x) for x in a[1:8])
+    ctx.case(('build-sha', repr(inp)[:4000]), nontrivial=n > 1, sample={'op': 'build-sha', 'sha_calls': cnt.calls, 'sha_bytes': cnt.bytes,
+                                                                       'model_bytes': nbytes, 'n': n, 'e': e})
+    ctx.count('op:build-sha')
+    ctx.count(f'build-sha:max-levels={max(lvs)}')
+    if ok4 != 1 or hw != 4 * (n + e) or steps > 4 * n + 9 * e or nbytes > 4 * cbytes + 136 * (n + e):
+        ctx.corr_broken(f'cost model: build numbers of {tag} contradict c19_build_linear / c19_hash_work_closed: {a}')
+    if cnt.calls != sum(lvs) or cnt.calls > 4 * n:
+        ctx.fail('build:sha-calls', f'constructing {n} distinct cells created {cnt.calls} sha256 objects, expected one per hashed level '
+                                    f'= {sum(lvs)} (<= 4 per cell): hashes of referenced cells are recomputed', inp, cnt.calls, sum(lvs))
+    elif cnt.bytes > nbytes:
+        ctx.fail('build:sha-bytes', f'constructing {n} distinct cells hashed {cnt.bytes} bytes > model bound {nbytes} '
+                                    f'(levels*(max(size,34)+34*refs) per cell)', inp, cnt.bytes, f'<= {nbytes}')
+
+
 def dag_arg(nodes):
     return '|'.join(f"{2 + (len(b) + 7) // 8},{'.'.join(map(str, r)) or '-'}" for _, b, r in nodes)
 
@@ -186,6 +257,7 @@ def check_dag(ctx, nodes, tag, flagsets=('000', '111')):
     m = metered('build', hash_work, build)
     if not judge(ctx, 'build', hash_work, m, inp, 'constructing/hashing the DAG'):
         return
+    check_build_hashing(ctx, nodes, arg, inp, tag)
     cells = box['cells']
     root = cells[-1]
     if root is None:
@@ -719,6 +791,8 @@ def run(ctx):
         check_dag(ctx, fam_diamonds(k), f'diamonds{k}')
     for layers, width in (((6, 8), (40, 5)) if not ctx.thorough else ((6, 8), (40, 5), (100, 8), (250, 4))):
         check_dag(ctx, fam_wide(layers, width), f'wide{layers}x{width}')
+    for d, w in (((50, 2),) if not ctx.thorough else ((50, 1), (50, 2), (300, 2), (100, 4))):
+        check_dag(ctx, fam_levels(d, w), f'levels{d}x{w}', flagsets=('000',))
     for t in range(ctx.n(12, 120)):
         check_dag(ctx, fam_random(rng, rng.choice([2, 5, 17, 60, 200])), f'rand{t}', flagsets=(rng.choice(['000', '100', '010', '111', '101']),))
     if CALIBRATE:
@@ -813,6 +887,9 @@ def replay(ctx, payload):
         m = re.match(r'chain(\d+)x(\d+)$', fam)
         if m:
             check_dag(ctx, fam_chain(int(m.group(1)), int(m.group(2))), fam)
+        m = re.match(r'levels(\d+)x(\d+)$', fam)
+        if m:
+            check_dag(ctx, fam_levels(int(m.group(1)), int(m.group(2))), fam, flagsets=('000',))
         m = re.match(r'diamonds(\d+)$', fam)
         if m:
             check_dag(ctx, fam_diamonds(int(m.group(1))), fam)
